@@ -181,7 +181,7 @@ def shrink_graph(g):
 
 
 # ---- label families and insertion orders (C15 re-runs every property's cases through these) ----
-LABEL_FAMILIES = ["int", "bigint", "int257", "tuple", "frozenset", "str", "char"]
+LABEL_FAMILIES = ["int", "bigint", "int257", "tuple", "frozenset", "str", "char", "mixed"]
 
 
 def labeler(case=None):
@@ -201,6 +201,8 @@ def labeler(case=None):
         f = lambda v: "".join(["X", str(v), "q"])  # noqa: E731   (built at run time: not interned)
     elif fam == "char":
         f = lambda v: chr(ord("a") + v)  # noqa: E731
+    elif fam == "mixed":   # unorderable mix of types; includes the falsy labels 0, "" and ()
+        f = lambda v: [0, "", (), "s3", 4, ("t", 5), frozenset({6}), "s7"][v] if v < 8 else (("m", v) if v % 2 else "".join(["m", str(v)]))  # noqa: E731
     else:
         raise ValueError(fam)
     table = {}
